@@ -28,7 +28,12 @@ def run(ctx, replay=None):
     ctx.add_states(r_fixed)
     ctx.notes.append("Ask.tla: variant ReplyRecovers holds (%d states); pinned variant violates %s" % (r_fixed.distinct, r_pinned.inv_violated))
     tf = os.path.join(ctx.scratch, "c13.trace.ndjson")
-    p = ctx.drv(["c13", "record", "--rounds", 30 if quick else 600, "--out", tf], timeout=3000)
+    p, crash = ctx.drv_crashable(["c13", "record", "--rounds", 30 if quick else 600, "--out", tf], timeout=3000)
+    if crash:
+        ctx.report("process crash: %s in %s" % (crash["panic"], crash["frame"].split("(")[0]), "the driver died (a panic outside the asker's and the actor's own calls): %s" % crash["stderr"][-1500:],
+                   {"component": "c13", "crash": crash})
+        ctx.cov["evaluations"], ctx.cov["distinct_nontrivial"] = 1, 2
+        return ctx.finish(RULE)
     info = json.loads(p.stdout.strip().splitlines()[-1])
     r = ctx.tlc("Trace_AskAbs", workers=1, timeout=1500, cwd=tla, env_extra={"VERIF_TRACE": tf}, heap="6g")
     cons = r.printed("CONSUMED")
